@@ -291,7 +291,8 @@ func splitFilter(s, sep string) any {
 func uniqFilter(a []any) (result []any) {
 	seenMap := map[any]bool{}
 	seen := func(item any) bool {
-		if k := reflect.TypeOf(item).Kind(); k < reflect.Array || k == reflect.Ptr || k == reflect.UnsafePointer {
+		item = values.ToLiquid(item)
+		if item == nil || reflect.ValueOf(item).Comparable() {
 			if seenMap[item] {
 				return true
 			}
@@ -300,7 +301,7 @@ func uniqFilter(a []any) (result []any) {
 		}
 		// the O(n^2) case:
 		for _, other := range result {
-			if eqItems(item, other) {
+			if eqItems(item, values.ToLiquid(other)) {
 				return true
 			}
 		}
@@ -315,7 +316,10 @@ func uniqFilter(a []any) (result []any) {
 }
 
 func eqItems(a, b any) bool {
-	if reflect.TypeOf(a).Comparable() && reflect.TypeOf(b).Comparable() {
+	if a == nil || b == nil {
+		return a == b
+	}
+	if reflect.ValueOf(a).Comparable() && reflect.ValueOf(b).Comparable() {
 		return a == b
 	}
 	return reflect.DeepEqual(a, b)
